@@ -916,7 +916,74 @@ def rule_unit(ctx):
     return res.finish(1)
 
 
+def rule_weightsplit(ctx):
+    """There is one weight per *sample*.  Where a dataset operation cuts the weights in two (split_off / split_at / a helper
+    that is handed the weights and a position), the position is a number of samples - never a number of elements (`dim.size()`,
+    `len()` of a matrix, `n * ntargets`): for multi-target data the element count of the targets is a multiple of it, and
+    the two parts get weights of other samples (or the cut lies beyond the end)."""
+    from .c06 import inits_of, resolve
+    res = RuleResult("R-C02-weightsplit", "the weights of a dataset are cut at a sample count, never at an element count (`size()` of a shape, a product with the number of targets / features)")
+    F = ctx.facts()
+    n = 0
+    for fn in F.all_fns():
+        d = fn["d"]
+        if d["krate"] != "linfa" or not fn_file(fn).startswith("src/dataset/") or fn.get("exp") or "tests" in d["path"]:
+            continue
+        c = fn["crate"]
+        inits = dict(inits_of(fn))
+        for y in walk(fn["body"]):
+            # `let (records_mid, targets_mid) = (n1 * nfeatures, dim1.size());`
+            if y.get("k") == "LetStmt" and y.get("init") is not None and y["pat"].get("k") == "Tuple":
+                i0 = peel_refs(y["init"])
+                if i0.get("k") == "Tup" and len(i0["es"]) == len(y["pat"]["pats"]):
+                    for q, x in zip(y["pat"]["pats"], i0["es"]):
+                        if q.get("k") == "Bind":
+                            inits[q["local"]] = x
+
+        def from_weights(e, depth=0):
+            for z in walk(e):
+                if z.get("k") == "Field" and z.get("name") == "weights":
+                    return True
+                if z.get("k") == "Path" and z.get("local") in inits and depth < 4 and z.get("name") not in (None,) and from_weights(inits[z["local"]], depth + 1):
+                    return True
+            return False
+
+        def element_count(e, depth=0):
+            """a reason why the expression is an element count, else None"""
+            for z in walk(e):
+                if z.get("k") == "MethodCall" and z["name"] == "size" and not z["args"]:
+                    return "`%s`" % Render(c).e(z)[:30]
+                if z.get("k") == "Binary" and z["op"] == "*" and (c.ty(z.get("t")) or "").strip() in ("usize", "u64", "u32"):
+                    return "the product `%s`" % Render(c).e(z)[:30]
+                if z.get("k") == "MethodCall" and z["name"] == "len" and not z["args"] and "Dim<[usize; 2]>" in (c.ty(peel_refs(z["recv"]).get("at", peel_refs(z["recv"]).get("t"))) or ""):
+                    return "`%s` (the element count of a matrix)" % Render(c).e(z)[:30]
+                if z.get("k") == "Path" and z.get("local") in inits and depth < 4:
+                    r_ = element_count(inits[z["local"]], depth + 1)
+                    if r_:
+                        return r_
+            return None
+        for y in walk(fn["body"]):
+            mid = None
+            if y.get("k") == "MethodCall" and y["name"] in ("split_off", "split_at", "split_at_mut") and from_weights(y["recv"]):
+                mid = y["args"][-1] if y["args"] else None
+            elif y.get("k") == "Call" and len(y["args"]) == 2 and from_weights(y["args"][0]) and (c.ty(peel_refs(y["args"][1]).get("t")) or "").strip() == "usize":
+                mid = y["args"][1]
+            if mid is None:
+                continue
+            n += 1
+            key = fn_key(fn)
+            res.instance("%s : weights cut at `%s`" % (key, Render(c).e(mid)[:30]))
+            why = element_count(mid)
+            if why is None:
+                res.ok()
+            else:
+                res.violate("%s : weights-cut-at-element-count" % key, "the weights are cut at `%s`, which is %s: a number of elements, not of samples - for data with several targets (features) the parts carry the weights of other samples, or the cut lies beyond the end" % (Render(c).e(mid)[:30], why), fn_loc(fn, y.get("ln")))
+    if n < 1:
+        res.missing_anchor("a cut of the weights in the dataset code")
+    return res.finish(1)
+
+
 def rules(tier):
     from . import iteroverride, intnarrow
     return [intnarrow.make_rule("R-C02-narrow", lambda f: f["d"]["krate"] == "linfa" and "dataset" in fn_file(f), "the dataset code of the linfa crate"),
-            iteroverride.make_rule("R-C02-iter", {"linfa"}, 3, "the linfa crate (sample, feature / target and chunk iterators of a dataset)"), rule_align, rule_filter, rule_columns, rule_layout, rule_domain, rule_memorder, rule_extent, rule_search, rule_counted, rule_unit]
+            iteroverride.make_rule("R-C02-iter", {"linfa"}, 3, "the linfa crate (sample, feature / target and chunk iterators of a dataset)"), rule_align, rule_filter, rule_weightsplit, rule_columns, rule_layout, rule_domain, rule_memorder, rule_extent, rule_search, rule_counted, rule_unit]
